@@ -213,6 +213,9 @@ Qed.
 Lemma existsb_map' {A B} (f : A -> B) (p : B -> bool) l : existsb p (map f l) = existsb (fun x => p (f x)) l.
 Proof. induction l; simpl; congruence. Qed.
 
+Lemma existsb_ext' {A} (p q : A -> bool) l : (forall x, p x = q x) -> existsb p l = existsb q l.
+Proof. intro H. induction l; simpl; congruence. Qed.
+
 Lemma is_common_lib k e : (k < nkinds)%nat -> lib k e -> is_common (Some e) = true.
 Proof.
   intros Hk L. destruct (lib_exactly _ _ L) as (A & _ & _). unfold is_common, any.
@@ -616,7 +619,7 @@ Proof.
   rewrite (headed_trim_not_nil k) by (auto; apply headed1_headed, mtext_headed1).
   inversion L; subst; simpl unwrap.
   - apply marshal_sent.
-  - simpl text. erewrite type_of_chain_lib; eauto. apply marshal_sent.
+  - cbv iota beta. simpl text. erewrite type_of_chain_lib; eauto. apply marshal_sent.
 Qed.
 
 Lemma serialise_headed k e : (k < nkinds)%nat -> lib k e -> headed k (serialise e).
@@ -639,10 +642,389 @@ Proof.
   - destruct H as (r & -> & Hr).
     assert (Hr' : r = [] \/ exists r', r = sep :: r').
     { destruct Hr as [->|(c & r' & -> & [-> | ->])]; eauto.
-      rewrite mem_app in M. simpl in M. rewrite Z.eqb_refl, orb_true_r in M. discriminate. }
+      rewrite mem_app in M. simpl in M. rewrite ?Z.eqb_refl, ?orb_true_r in M. discriminate. }
     rewrite parse_headed1 by auto. simpl.
     destruct (lib_exactly _ _ (convert_sent_lib k (reason_part r))) as (A & _). rewrite A. apply Nat.eqb_refl.
 Qed.
 
 Lemma roundtrip_kind_l e k : given e k -> dres_is (deserialise (serialise e)) (TK k) = true.
 Proof. intro G. destruct (given_lib _ _ G) as (Hk & L). apply deserialise_headed; auto. apply serialise_headed; auto. Qed.
+
+(* ================= the reason ================= *)
+
+Lemma split_join_parts p ps : Forall (fun x => mem sep x = false) (p :: ps) ->
+  split sep (join [sep; 32] (p :: ps)) = p :: map (cons 32) ps.
+Proof.
+  revert p. induction ps as [|q ps IH]; intros p F; inversion F as [|? ? Hp Hps]; subst.
+  - simpl. apply split_nosep; auto.
+  - change (join [sep; 32] (p :: q :: ps)) with (p ++ sep :: 32 :: join [sep; 32] (q :: ps)).
+    rewrite split_app_sep by auto.
+    destruct (split_cons_other sep 32 (join [sep; 32] (q :: ps)) eq_refl) as (h & t & E1 & E2).
+    rewrite E2. rewrite (IH q Hps) in E1. inversion E1; subst. reflexivity.
+Qed.
+
+Lemma normalise_idem m : normalise (normalise m) = normalise m.
+Proof.
+  unfold normalise.
+  destruct (split sep m) as [|p ps] eqn:E; [exfalso; eapply split_nonempty; eauto|].
+  change (map trim (p :: ps)) with (trim p :: map trim ps). rewrite split_join_parts.
+  - f_equal. simpl. rewrite trim_idem. f_equal. rewrite !map_map. apply map_ext. intro a.
+    rewrite trim_space_cons by reflexivity. apply trim_idem.
+  - change (trim p :: map trim ps) with (map trim (p :: ps)). rewrite <- E.
+    eapply Forall_map'; [|apply split_segments_nosep]. intros a Ha. apply mem_trim; auto.
+Qed.
+
+Lemma normalise_space m : normalise (32 :: m) = normalise m.
+Proof. unfold normalise. rewrite map_trim_split_space; auto. Qed.
+
+Lemma normalise_mem c m : mem c [sep; 32] = false -> mem c m = false -> mem c (normalise m) = false.
+Proof.
+  intros S M. unfold normalise. apply mem_join; auto.
+  eapply Forall_map'; [|apply (mem_split c sep m M)]. intros a Ha. apply mem_trim; auto.
+Qed.
+
+Lemma parse_mtext k R : (k < nkinds)%nat -> normalise R = R -> parse_line (mtext k R) = Some (Sent k, R).
+Proof.
+  intros Hk N. unfold mtext. destruct R as [|c R]; simpl is_nil; cbv iota.
+  - rewrite <- (app_nil_r (ktext k)). rewrite parse_headed1; auto.
+  - rewrite parse_headed1 by eauto. unfold reason_part. rewrite normalise_space, N. reflexivity.
+Qed.
+
+Lemma reason_part_normal r : normalise (reason_part r) = reason_part r.
+Proof. destruct r; simpl; auto. apply normalise_idem. Qed.
+
+Lemma reason_part_nl r : mem nl r = false -> mem nl (reason_part r) = false.
+Proof.
+  destruct r; simpl; auto. intro M. apply orb_false_iff in M. destruct M. apply normalise_mem; auto.
+Qed.
+
+Lemma mtext_nl k R : (k < nkinds)%nat -> mem nl R = false -> mem nl (mtext k R) = false.
+Proof.
+  intros Hk M. destruct (kind_text_ok_l k Hk) as (_ & _ & Mn & _ & _). unfold mtext.
+  destruct (is_nil R); auto. rewrite mem_app, Mn. simpl. rewrite M. reflexivity.
+Qed.
+
+Lemma kind_of_exactly e k : (k < nkinds)%nat -> exactly e k -> kind_of e = [k].
+Proof.
+  intros Hk (A & _ & _). unfold kind_of.
+  rewrite (filter_ext _ (fun k' => Nat.eqb k k')) by (intro; apply A).
+  clear A. revert Hk. generalize nkinds. intros n Hk.
+  assert (Sq : seq 0 n = seq 0 k ++ k :: seq (S k) (n - S k)).
+  { replace n with (k + S (n - S k))%nat at 1 by lia. rewrite seq_app. reflexivity. }
+  rewrite Sq. rewrite filter_app. simpl. rewrite Nat.eqb_refl.
+  assert (Z1 : forall a l, (forall x, In x l -> x <> a) -> filter (fun k' => Nat.eqb a k') l = []).
+  { intros a l. induction l as [|x l IH]; simpl; auto. intro H.
+    destruct (Nat.eqb a x) eqn:Q; [apply Nat.eqb_eq in Q; exfalso; apply (H x); auto|]. apply IH. intros; apply H; auto. }
+  rewrite !Z1; auto; intros x I; apply in_seq in I; lia.
+Qed.
+
+(* single error, single-line text: the round trip yields one error of exactly that kind whose text is
+   "<kind>: <normalised reason>" (or "<kind>") and whose reason is the normalised reason *)
+Lemma roundtrip_single_l e k r : given e k -> text e = ktext k ++ r -> mem nl (text e) = false ->
+  exists d, deserialise (serialise e) = DOne d /\ exactly d k /\ text d = mtext k (reason_part r) /\
+            reason_of_text (text d) = reason_part r /\ dres_kinds (deserialise (serialise e)) = [[k]].
+Proof.
+  intros G E M. destruct (given_lib _ _ G) as (Hk & L).
+  rewrite (serialise_single k e r Hk L E M).
+  assert (Mr : mem nl r = false) by (rewrite E, mem_app in M; apply orb_false_iff in M; tauto).
+  pose proof (mtext_nl k _ Hk (reason_part_nl r Mr)) as Mt.
+  pose proof (parse_mtext k _ Hk (reason_part_normal r)) as P.
+  exists (convert_to_error (Sent k, reason_part r)).
+  assert (T : text (convert_to_error (Sent k, reason_part r)) = mtext k (reason_part r)) by apply marshal_sent.
+  assert (D : deserialise (mtext k (reason_part r)) = DOne (convert_to_error (Sent k, reason_part r))).
+  { unfold deserialise. rewrite (headed_not_nil k) by (auto; apply headed1_headed, mtext_headed1).
+    rewrite contains_mem, Mt, P. reflexivity. }
+  pose proof (lib_exactly _ _ (convert_sent_lib k (reason_part r))) as X.
+  repeat split; auto; try apply X.
+  - rewrite T. unfold reason_of_text. rewrite (headed_not_nil k) by (auto; apply headed1_headed, mtext_headed1).
+    rewrite contains_mem, Mt, P. reflexivity.
+  - rewrite D. simpl. rewrite (kind_of_exactly _ k); auto.
+Qed.
+
+(* the headline case: New(kind, m) with a single-line m *)
+Lemma roundtrip_reason_new_l k m : (k < nkinds)%nat -> mem nl m = false ->
+  exists d, deserialise (serialise (new (Some (Sent k)) m)) = DOne d /\ exactly d k /\
+            reason_of_text (text d) = normalise m.
+Proof.
+  intros Hk M. destruct (kind_text_ok_l k Hk) as (_ & _ & Mn & _ & _).
+  assert (G : given (new (Some (Sent k)) m) k) by (constructor; apply A_given; constructor; auto).
+  assert (E : text (new (Some (Sent k)) m) = ktext k ++ sep :: 32 :: m) by (unfold new; rewrite errorf_some_eq; reflexivity).
+  destruct (roundtrip_single_l _ k _ G E) as (d & D & X & _ & R & _).
+  { rewrite E, mem_app, Mn. simpl. rewrite M. reflexivity. }
+  exists d. repeat split; auto; try apply X. rewrite R. simpl. apply normalise_space.
+Qed.
+
+(* the code before fixes/C11-nested-reason.patch: the reason of a nested error is duplicated (defect D18) *)
+Lemma unfixed_nested_reason_refuted_l :
+  exists k m1 m2, (k < nkinds)%nat /\
+    let e := new (Some (new (Some (Sent k)) m1)) m2 in
+    reason_of_text (dres_text (deserialise (serialise_gen false e))) <> reason_part (skipn (length (ktext k)) (text e))
+    /\ reason_of_text (dres_text (deserialise (serialise_gen true e))) = reason_part (skipn (length (ktext k)) (text e)).
+Proof.
+  exists ErrInvalid, [102;111;111], [98;97;114]. split; [vm_compute; lia|]. vm_compute. split; [discriminate | reflexivity].
+Qed.
+
+(* ================= joins ================= *)
+
+Definition R_of (e : err) (k : nat) : bytes := reason_part (skipn (length (ktext k)) (text e)).
+Definition jline (e : err) (k : nat) : bytes := marshal_line (e, R_of e k).
+
+Lemma skipn_app_len {A} (a b : list A) : skipn (length a) (a ++ b) = b.
+Proof. induction a; simpl; auto. Qed.
+
+Lemma parse_text_lib k e : (k < nkinds)%nat -> lib k e -> parse_line (text e) = Some (Sent k, R_of e k).
+Proof.
+  intros Hk L. destruct (lib_headed1 _ _ L) as (r & E & Hr). unfold R_of. rewrite E, skipn_app_len.
+  apply parse_headed1; auto.
+Qed.
+
+Lemma jline_ok k e : (k < nkinds)%nat -> lib k e -> mem nl (text e) = false ->
+  headed1 k (jline e k) /\ mem nl (jline e k) = false.
+Proof.
+  intros Hk L M. destruct (lib_headed1 _ _ L) as (r & E & Hr).
+  assert (Mr : mem nl r = false) by (rewrite E, mem_app in M; apply orb_false_iff in M; tauto).
+  assert (HR : R_of e k = reason_part r) by (unfold R_of; rewrite E, skipn_app_len; reflexivity).
+  unfold jline, marshal_line, convert_to_error, new. rewrite HR.
+  destruct (is_nil (reason_part r)) eqn:N.
+  - split; auto. exists r. auto.
+  - rewrite errorf_some_eq, (lib_convert _ _ L). simpl text. split.
+    + rewrite E. destruct Hr as [->|[r' ->]].
+      * rewrite app_nil_r. eexists. split; [reflexivity|]. eauto.
+      * rewrite <- app_assoc. eexists. split; [reflexivity|]. simpl. eauto.
+    + rewrite mem_app, M. simpl. apply reason_part_nl; auto.
+Qed.
+
+Definition good (p : err * nat) : Prop := (snd p < nkinds)%nat /\ lib (snd p) (fst p) /\ mem nl (text (fst p)) = false.
+
+Lemma split_join_lines ls : ls <> [] -> Forall (fun l => mem nl l = false) ls -> split nl (join [nl] ls) = ls.
+Proof.
+  intros NE F. induction F as [|a ls Ha F IH]; [congruence|].
+  destruct ls as [|b ls]; [simpl; apply split_nosep; auto|].
+  change (join [nl] (a :: b :: ls)) with (a ++ nl :: join [nl] (b :: ls)).
+  rewrite split_app_sep by auto. rewrite IH by discriminate. reflexivity.
+Qed.
+
+Lemma split_concat_lines ls : Forall (fun l => mem nl l = false) ls ->
+  split nl (concat (map (fun l => l ++ [nl]) ls)) = ls ++ [[]].
+Proof.
+  induction 1 as [|a ls Ha F IH]; [reflexivity|].
+  simpl. rewrite <- app_assoc. simpl. rewrite split_app_sep by auto. rewrite IH. reflexivity.
+Qed.
+
+Lemma filter_map_app {A B} (f : A -> option B) l1 l2 : filter_map f (l1 ++ l2) = filter_map f l1 ++ filter_map f l2.
+Proof. induction l1; simpl; auto. destruct (f a); simpl; congruence. Qed.
+
+Lemma parse_nil : parse_line [] = None. Proof. reflexivity. Qed.
+
+(* deserialising lines that each start with a kind: one error per line, of exactly that kind *)
+Lemma parse_good_lines (lks : list (bytes * nat)) :
+  Forall (fun p => (snd p < nkinds)%nat /\ headed1 (snd p) (fst p)) lks ->
+  exists subs, filter_map parse_line (map fst lks) = subs /\
+               map (fun ml => kind_of (convert_to_error ml)) subs = map (fun p => [snd p]) lks /\
+               (forall l k rest, lks = (l, k) :: rest -> exists R rest', subs = (Sent k, R) :: rest').
+Proof.
+  induction 1 as [|[l k] lks (Hk & (r & E & Hr)) F (subs & S1 & S2 & S3)].
+  - exists []. repeat split; auto. discriminate.
+  - simpl in *. subst l. rewrite parse_headed1 by auto. eexists. split; [reflexivity|]. split.
+    + simpl. rewrite S1, S2. f_equal. apply kind_of_exactly; auto. apply lib_exactly, convert_sent_lib.
+    + intros l0 k0 rest0 Q. inversion Q; subst. eauto.
+Qed.
+
+Lemma deser_lines (lks : list (bytes * nat)) : lks <> [] ->
+  Forall (fun p => (snd p < nkinds)%nat /\ headed1 (snd p) (fst p)) lks ->
+  Forall (fun l => mem nl l = false) (map fst lks) ->
+  dres_kinds (deserialise (concat (map (fun l => l ++ [nl]) (map fst lks)))) = map (fun p => [snd p]) lks.
+Proof.
+  intros NE F M. destruct lks as [|[l k] rest]; [congruence|]. clear NE.
+  destruct (parse_good_lines _ F) as (subs & S1 & S2 & S3). destruct (S3 l k rest eq_refl) as (R & rest' & ->).
+  inversion F as [|? ? (Hk & H1) _]; subst. simpl in Hk, H1.
+  unfold deserialise.
+  assert (HD : headed k (concat (map (fun l0 => l0 ++ [nl]) (map fst ((l, k) :: rest))))).
+  { simpl. destruct H1 as (r & -> & Hr). rewrite <- !app_assoc. eexists. split; [reflexivity|].
+    destruct Hr as [->|[r' ->]]; right; simpl; eauto. }
+  rewrite (headed_not_nil k) by auto. rewrite contains_mem.
+  assert (mem nl (concat (map (fun l0 => l0 ++ [nl]) (map fst ((l, k) :: rest)))) = true) as ->.
+  { simpl. rewrite !mem_app. simpl. rewrite ?Z.eqb_refl, ?orb_true_r. reflexivity. }
+  unfold parse_lines. rewrite split_concat_lines by auto. rewrite filter_map_app, S1.
+  change (filter_map parse_line [[]]) with (@nil mline). rewrite !app_nil_r. rewrite (headed_trim_not_nil k) by (auto; apply marshal_lines_headed).
+  simpl dres_kinds. rewrite map_map. exact S2.
+Qed.
+
+Lemma deser_line l k : (k < nkinds)%nat -> headed1 k l -> mem nl l = false -> dres_kinds (deserialise l) = [[k]].
+Proof.
+  intros Hk (r & -> & Hr) M. unfold deserialise. rewrite kind_app_not_nil by auto. rewrite contains_mem, M.
+  rewrite parse_headed1 by auto. simpl. f_equal. apply kind_of_exactly; auto. apply lib_exactly, convert_sent_lib.
+Qed.
+
+Lemma lib_not_empty k e : (k < nkinds)%nat -> lib k e -> is_empty_err e = false.
+Proof. intros Hk L. unfold is_empty_err. apply (headed_trim_not_nil k); auto. apply headed1_headed, lib_headed1; auto. Qed.
+
+Lemma filter_good (ps : list (err * nat)) : Forall good ps ->
+  filter (fun e => negb (is_empty_err e)) (map fst ps) = map fst ps.
+Proof.
+  induction 1 as [|[e k] ps (Hk & L & _) F IH]; simpl; auto. simpl in *. rewrite (lib_not_empty k e), IH; auto.
+Qed.
+
+Lemma parse_good (ps : list (err * nat)) : Forall good ps ->
+  filter_map parse_line (map text (map fst ps)) = map (fun p => (Sent (snd p), R_of (fst p) (snd p))) ps.
+Proof.
+  induction 1 as [|[e k] ps (Hk & L & _) F IH]; simpl; auto. simpl in *. rewrite (parse_text_lib k e), IH; auto.
+Qed.
+
+Lemma assign_good (ps : list (err * nat)) :
+  assign_types (map (fun p => (Sent (snd p), R_of (fst p) (snd p))) ps) (map fst ps) =
+  map (fun p => (fst p, R_of (fst p) (snd p))) ps.
+Proof. induction ps as [|[e k] ps IH]; simpl; auto. rewrite IH. reflexivity. Qed.
+
+Lemma lks_good (qs : list (err * nat)) : Forall good qs ->
+  Forall (fun p : bytes * nat => (snd p < nkinds)%nat /\ headed1 (snd p) (fst p))
+         (map (fun p => (jline (fst p) (snd p), snd p)) qs) /\
+  Forall (fun l => mem nl l = false) (map fst (map (fun p => (jline (fst p) (snd p), snd p)) qs)).
+Proof.
+  induction 1 as [|[e k] ps (Hk & L & M) F [IH1 IH2]]; simpl; split; constructor; auto; simpl in *.
+  - split; auto. apply jline_ok; auto.
+  - apply jline_ok; auto.
+Qed.
+
+(* joins of 1..n constructed errors with single-line texts: the round trip yields one error per joined error, in
+   order, each of exactly the kind the corresponding error was given *)
+Lemma roundtrip_join_kinds_l (ps : list (err * nat)) : ps <> [] ->
+  Forall (fun p => given (fst p) (snd p) /\ mem nl (text (fst p)) = false) ps ->
+  dres_kinds (deserialise (serialise_join (map fst ps))) = map (fun p => [snd p]) ps.
+Proof.
+  intros NE F0.
+  assert (F : Forall good ps).
+  { eapply Forall_impl; [|exact F0]. intros [e k] (G & M). destruct (given_lib _ _ G). split; auto. }
+  clear F0. unfold serialise_join. rewrite (filter_good _ F).
+  assert (NL : Forall (fun l => mem nl l = false) (map text (map fst ps))).
+  { clear NE. induction F as [|[e k] ps (_ & _ & M) F IH]; simpl; constructor; auto. }
+  destruct ps as [|[e1 k1] [|p2 ps]]; [congruence| |].
+  - (* a join of one error: its text has no line separator *)
+    inversion F as [|? ? (Hk & L & M) _]; subst. simpl in Hk, L, M. simpl map. simpl join.
+    rewrite contains_mem, M. rewrite (parse_text_lib k1 e1) by auto.
+    destruct (jline_ok k1 e1 Hk L M) as (H1 & Mj).
+    rewrite marshal_sent. rewrite (headed_trim_not_nil k1) by (auto; apply headed1_headed, mtext_headed1).
+    change (marshal_line (e1, R_of e1 k1)) with (jline e1 k1). apply deser_line; auto.
+  - (* two or more: one line each *)
+    set (qs := (e1, k1) :: p2 :: ps) in *.
+    assert (C : contains (join [nl] (map text (map fst qs))) [nl] = true).
+    { rewrite contains_mem. unfold qs. simpl map.
+      change (join [nl] (text e1 :: text (fst p2) :: map text (map fst ps))) with
+        (text e1 ++ nl :: join [nl] (text (fst p2) :: map text (map fst ps))).
+      rewrite mem_app. simpl. rewrite ?Z.eqb_refl, ?orb_true_r. reflexivity. }
+    rewrite C. unfold parse_lines. rewrite split_join_lines by (auto; unfold qs; discriminate).
+    rewrite (parse_good _ F), assign_good.
+    assert (HD : exists R rest, map (fun p => (Sent (snd p), R_of (fst p) (snd p))) qs = (Sent k1, R) :: rest)
+      by (unfold qs; simpl; eauto).
+    destruct HD as (R & rest & HD). rewrite HD.
+    inversion F as [|? ? (Hk & _) _]; subst. simpl in Hk.
+    rewrite (headed_trim_not_nil k1) by (auto; apply marshal_lines_headed).
+    unfold marshal_lines.
+    set (lks := map (fun p => (jline (fst p) (snd p), snd p)) qs).
+    replace (map (fun ml => marshal_line ml ++ [nl]) (map (fun p => (fst p, R_of (fst p) (snd p))) qs))
+      with (map (fun l => l ++ [nl]) (map fst lks)) by (unfold lks; rewrite !map_map; reflexivity).
+    replace (map (fun p => [snd p]) qs) with (map (fun p : bytes * nat => [snd p]) lks)
+      by (unfold lks; rewrite map_map; reflexivity).
+    apply deser_lines.
+    + unfold lks, qs. discriminate.
+    + apply lks_good; auto.
+    + apply lks_good; auto.
+Qed.
+
+(* ================= converters ================= *)
+
+Lemma convert_ctx_idem e : convert_ctx (convert_ctx e) = convert_ctx e.
+Proof.
+  unfold convert_ctx. destruct (is e TCanceled) eqn:C; [reflexivity|].
+  destruct (is e TDeadline) eqn:D; [reflexivity|]. rewrite C, D. reflexivity.
+Qed.
+
+Lemma foreign_no_kind e i : is e (TF i) = true -> forall k, is e (TK k) = false.
+Proof. induction e; simpl; try discriminate; auto. Qed.
+
+Lemma wrap_sent_lib k c m : any (Some (convert_ctx c)) ctx_kinds = false ->
+  lib k (wrap_error (Some (Sent k)) (Some c) m).
+Proof. intro H. unfold wrap_error. simpl option_map. rewrite H. apply errorf_lib. constructor. Qed.
+
+Lemma ctx_cause_convert c k : ctx_cause c k ->
+  exactly (convert_ctx c) k /\ any (Some (convert_ctx c)) ctx_kinds = true /\ (k < nkinds)%nat.
+Proof.
+  intros [H|[G Ck]].
+  - destruct (ctx_kind_cases _ _ H) as (_ & E & _). destruct (ctx_kind_lt _ _ H) as (Hk & Ck).
+    rewrite E, any_sent_ctx. split; [apply lib_exactly; constructor | auto].
+  - destruct (given_lib _ _ G) as (Hk & L). rewrite (lib_convert _ _ L), (any_lib_ctx _ _ L).
+    split; [apply lib_exactly; auto | auto].
+Qed.
+
+(* the rule-list converters (ConvertFileSystemError, ConvertProcessError), whatever the rule predicates are *)
+Lemma convert_rules_l rs e :
+  (forall k, ctx_cause e k -> exactly (convert_rules rs e) k) /\
+  (forall k m, any (Some (convert_ctx e)) ctx_kinds = false -> first_rule rs (convert_ctx e) = Some (k, m) ->
+               exactly (convert_rules rs e) k /\ is_common (Some (convert_rules rs e)) = is_common (Some (Sent k))) /\
+  (any (Some (convert_ctx e)) ctx_kinds = false -> first_rule rs (convert_ctx e) = None ->
+               convert_rules rs e = convert_ctx e).
+Proof.
+  unfold convert_rules. split; [|split].
+  - intros k H. destruct (ctx_cause_convert _ _ H) as (X & A & _). rewrite A. apply X.
+  - intros k m H H0. split.
+    + rewrite H, H0. apply lib_exactly, wrap_sent_lib. rewrite convert_ctx_idem. auto.
+    + rewrite H, H0.
+      assert (L : lib k (wrap_error (Some (Sent k)) (Some (convert_ctx e)) m)) by (apply wrap_sent_lib; rewrite convert_ctx_idem; auto).
+      destruct (lib_exactly _ _ L) as (A & _). unfold is_common, any. rewrite !existsb_map'.
+      apply existsb_ext'. intro x. rewrite A. simpl. rewrite orb_false_r. reflexivity.
+  - intros H H0. rewrite H, H0. reflexivity.
+Qed.
+
+Lemma eof_not_ctx : is_ctx_kind ErrEOF = false /\ (ErrEOF < nkinds)%nat /\
+  Nat.eqb ErrCancelled ErrEOF = false /\ Nat.eqb ErrTimeout ErrEOF = false.
+Proof. vm_compute. repeat split; lia. Qed.
+
+Definition io_targets : list target := [TF io_EOF; TF io_ErrUnexpectedEOF].
+
+Lemma any_foreign_no_kind n ts : (forall t, In t ts -> exists i, t = TF i) -> any (Some n) ts = true ->
+  forall k, is n (TK k) = false.
+Proof.
+  intros F H. simpl in H. apply existsb_exists in H. destruct H as (t & I & H).
+  destruct (F t I) as (i & ->). eapply foreign_no_kind; eauto.
+Qed.
+
+Lemma io_targets_foreign : forall t, In t io_targets -> exists i, t = TF i.
+Proof. intros t [<-|[<-|[]]]; eauto. Qed.
+
+(* ConvertIOError: its result is a fixed point (converting again changes nothing); a context error becomes exactly
+   cancelled / timeout; io.EOF / io.ErrUnexpectedEOF (bare or wrapped) become exactly ErrEOF *)
+Lemma convert_io_l e :
+  convert_io (convert_io e) = convert_io e /\
+  (forall k, ctx_kind_of e = Some k -> convert_io e = Sent k) /\
+  (ctx_kind_of e = None -> any (Some e) io_targets = true -> exactly (convert_io e) ErrEOF).
+Proof.
+  destruct eof_not_ctx as (E1 & E2 & E3 & E4).
+  assert (EOFCASE : forall n, convert_ctx n = n -> any (Some n) [TK ErrEOF] = false -> any (Some n) io_targets = true ->
+                    lib ErrEOF (wrap_error (Some (Sent ErrEOF)) (Some n) [])).
+  { intros n Cn A B. apply wrap_sent_lib. rewrite Cn. pose proof (any_foreign_no_kind n _ io_targets_foreign B) as N.
+    simpl. rewrite !N. reflexivity. }
+  split; [|split].
+  - assert (R : convert_io e = if any (Some (convert_ctx e)) [TK ErrEOF] then convert_ctx e
+                               else if any (Some (convert_ctx e)) io_targets
+                                    then wrap_error (Some (Sent ErrEOF)) (Some (convert_ctx e)) [] else convert_ctx e)
+      by reflexivity.
+    rewrite R. clear R.
+    destruct (any (Some (convert_ctx e)) [TK ErrEOF]) eqn:A.
+    + unfold convert_io. rewrite convert_ctx_idem, A. reflexivity.
+    + destruct (any (Some (convert_ctx e)) io_targets) eqn:B.
+      * pose proof (EOFCASE _ (convert_ctx_idem e) A B) as L. unfold convert_io. rewrite (lib_convert _ _ L).
+        destruct (lib_exactly _ _ L) as (X & _).
+        assert (any (Some (wrap_error (Some (Sent ErrEOF)) (Some (convert_ctx e)) [])) [TK ErrEOF] = true) as ->
+          by (cbn [any existsb]; rewrite X, Nat.eqb_refl; reflexivity).
+        reflexivity.
+      * unfold convert_io. fold io_targets. rewrite convert_ctx_idem, A, B. reflexivity.
+  - intros k H. destruct (ctx_kind_cases _ _ H) as (Hk & C & _). unfold convert_io. rewrite C. simpl.
+    rewrite !orb_false_r. destruct Hk as [-> | ->]; rewrite ?E3, ?E4; reflexivity.
+  - intros H B. assert (C : convert_ctx e = e).
+    { unfold ctx_kind_of in H. unfold convert_ctx. destruct (is e TCanceled); [discriminate|].
+      destruct (is e TDeadline); [discriminate | reflexivity]. }
+    pose proof (any_foreign_no_kind e _ io_targets_foreign B) as N.
+    unfold convert_io. fold io_targets. rewrite C.
+    assert (A : any (Some e) [TK ErrEOF] = false) by (simpl; rewrite N; reflexivity).
+    rewrite A, B. apply lib_exactly, EOFCASE; auto.
+Qed.
